@@ -197,6 +197,12 @@ def global_names(src):
         for ch in t.get_children():
             rec(ch, False)
     rec(top, True)
+    # Python >= 3.12 inlines list/set/dict comprehensions (PEP 709): their variables have no symbol table of
+    # their own, but they are local to the comprehension all the same
+    for node in ast.walk(ast.parse(code)):
+        if isinstance(node, (ast.ListComp, ast.SetComp, ast.DictComp, ast.GeneratorExp)):
+            for gen in node.generators:
+                other.update(t.id for t in ast.walk(gen.target) if isinstance(t, ast.Name))
     return glob - other, other
 
 
